@@ -256,6 +256,32 @@ def ultra_measure(hw):
     claim("accepted only non-negative", z3.fpGEQ(zfp(v), fpv(0.0)))
 
 
+def ultra_measure_with_default(hw):
+    """provider value wins over any default distance (including a provider reading of exactly 0)."""
+    S = hw.load("Reduino.Sensors")
+    v = sym_float("distance", -5.0, 1000.0)
+    d = sym_float("default", -5.0, 1000.0)
+    u = S.Ultrasonic(7, 8, distance_provider=lambda: v, default_distance=d)
+    try:
+        r = u.measure_distance()
+    except ValueError:
+        claim("rejects only negative provider distances", z3.fpLT(zfp(v), fpv(0.0)))
+        return
+    claim("returns the provider's value", z3.fpEQ(zfp(r), zfp(v)))
+
+
+def ultra_int_provider(hw):
+    S = hw.load("Reduino.Sensors")
+    v = sym_int("distance", -5, 1000)
+    u = S.Ultrasonic(7, 8, distance_provider=lambda: v, default_distance=400.0)
+    try:
+        r = u.measure_distance()
+    except ValueError:
+        claim("rejects only negative provider distances", zint(v) < 0)
+        return
+    claim("returns the provider's value", pysym.same_value(r, v))
+
+
 def ultra_default(hw):
     S = hw.load("Reduino.Sensors")
     d = sym_float("default", -10.0, 1000.0)
@@ -375,6 +401,8 @@ def obligations(tier):
     obs.append(("Potentiometer.default", pot_default, {}))
     obs.append(("Ultrasonic.measure_distance", ultra_measure, {}))
     obs.append(("Ultrasonic.default_distance", ultra_default, {}))
+    obs.append(("Ultrasonic.provider_vs_default", ultra_measure_with_default, {}))
+    obs.append(("Ultrasonic.int_provider", ultra_int_provider, {}))
     for k in ("int", "float", "bool", "str"):
         obs.append((f"SerialMonitor.write[{k}]", serial_write(k), {}))
     obs.append(("SerialMonitor.write[unconnected]", serial_unconnected, {}))
